@@ -64,6 +64,23 @@ Theorem C19_stream : forall (json_ok : list N -> bool) (bodies : list (list N)) 
 Proof. exact stream. Qed.
 Print Assumptions C19_stream.
 
+(* ---- regression witness (corpus/C19/null_body.json).  Until /repo commit e5c7771 a frame with the
+   body `null` was consumed while decode answered Ok(None) ("need more bytes").  The general loop
+   `run_chunks_pinned` has that outcome (JNull); it is independent of the segmentation exactly as
+   long as the outcome cannot occur ... *)
+Theorem C19_chunking_general : forall (jc : list N -> jclass) (chunks : list (list N)),
+  (forall b, jc b <> JNull) ->
+  run_chunks_pinned jc chunks = run_chunks_pinned jc [concat chunks].
+Proof. exact (fun jc chunks H => chunking_pinned jc chunks H). Qed.
+Print Assumptions C19_chunking_general.
+
+(* ... and is not when it can: null-frame | null-frame + frame yields the message, the same
+   bytes in one read yield "bytes remaining on stream" *)
+Theorem C19_null_outcome_breaks_chunking :
+  exists jc chunks, run_chunks_pinned jc chunks <> run_chunks_pinned jc [concat chunks].
+Proof. exact pinned_not_chunking_independent. Qed.
+Print Assumptions C19_null_outcome_breaks_chunking.
+
 (* ---- non-vacuity: concrete instances.  The body is {"é":1}: 7 characters, 8 bytes. ---- *)
 
 Example C19_mono_example :
@@ -112,3 +129,13 @@ Example C19_stream_example :
   run_chunks (fun _ => true) (map (fun c => [c]) s) = [EMsg b1; EMsg b2; EMsg b1]   (* one byte per read *)
   /\ run_chunks (fun _ => true) [firstn 40 s; skipn 40 s] = [EMsg b1; EMsg b2; EMsg b1].
 Proof. vm_compute. split; reflexivity. Qed.
+
+Example C19_null_outcome_example :
+  let n := encode_frame [110; 117; 108; 108] in
+  let a := encode_frame [123; 125] in
+  run_chunks_pinned jc_null [n; n ++ a] = [EMsg [123; 125]]
+  /\ run_chunks_pinned jc_null [n ++ n ++ a] = [ETrailing]
+  (* the repaired codec: `null` is not a message, in every segmentation *)
+  /\ run_chunks (fun b => negb (bytes_eqb b [110; 117; 108; 108])) [n; n ++ a] = [EBadJson [110; 117; 108; 108]]
+  /\ run_chunks (fun b => negb (bytes_eqb b [110; 117; 108; 108])) [n ++ n ++ a] = [EBadJson [110; 117; 108; 108]].
+Proof. vm_compute. repeat split; reflexivity. Qed.
